@@ -1,4 +1,5 @@
 //! Types shared by the byte-level facade (one instance per library flavour) and the harness.
+pub mod vtree;
 
 /// Group assignment. `G1` = signatures in G1, public keys in G2 (`Bls12381G1Impl`).
 #[derive(Clone, Copy, Debug, PartialEq, Eq, Hash, PartialOrd, Ord)]
@@ -44,6 +45,14 @@ pub enum Codec {
     JsonReader = 8,
     /// the same JSON text parsed into a `serde_json::Value` first and decoded with `from_value` (a field of a larger document)
     JsonValue = 9,
+    /// a third serde format owned by the harness (vtree.rs): self-describing binary, hands visitors OWNED buffers
+    TreeBin = 10,
+    /// the same, LENDING byte strings and strings to visitors (`visit_bytes` / `visit_str`), as zero-copy readers do
+    TreeBinLend = 11,
+    /// the same document model announcing itself human-readable, lending strings
+    TreeHr = 12,
+    /// binary, structs written as maps keyed by field name (CBOR / MessagePack-with-names style), lending
+    TreeBinMap = 13,
 }
 impl Codec {
     pub const MAIN: [Codec; 3] = [Codec::Bytes, Codec::Bare, Codec::Json];
@@ -59,10 +68,25 @@ impl Codec {
     ];
     /// the two further front ends of the human-readable form (not in `ALL`: they share `Json`'s text)
     pub const JSON_FRONT_ENDS: [Codec; 2] = [Codec::JsonReader, Codec::JsonValue];
+    /// the harness-owned third serde format in its four modes (not in `ALL`)
+    pub const TREE_FORMATS: [Codec; 4] = [Codec::TreeBin, Codec::TreeBinLend, Codec::TreeHr, Codec::TreeBinMap];
+    pub fn tree_mode(self) -> Option<vtree::Mode> {
+        match self {
+            Codec::TreeBin => Some(vtree::Mode { human_readable: false, lend: false, structs_as_maps: false }),
+            Codec::TreeBinLend => Some(vtree::Mode { human_readable: false, lend: true, structs_as_maps: false }),
+            Codec::TreeHr => Some(vtree::Mode { human_readable: true, lend: true, structs_as_maps: true }),
+            Codec::TreeBinMap => Some(vtree::Mode { human_readable: false, lend: true, structs_as_maps: true }),
+            _ => None,
+        }
+    }
     pub fn from_u8(b: u8) -> Option<Codec> {
         match b {
             8 => Some(Codec::JsonReader),
             9 => Some(Codec::JsonValue),
+            10 => Some(Codec::TreeBin),
+            11 => Some(Codec::TreeBinLend),
+            12 => Some(Codec::TreeHr),
+            13 => Some(Codec::TreeBinMap),
             _ => Codec::ALL.get(b as usize).copied(),
         }
     }
@@ -76,6 +100,10 @@ impl Codec {
             Codec::Json => "json",
             Codec::JsonReader => "json-from-reader",
             Codec::JsonValue => "json-from-value",
+            Codec::TreeBin => "tree-binary-owned",
+            Codec::TreeBinLend => "tree-binary-lending",
+            Codec::TreeHr => "tree-human-readable",
+            Codec::TreeBinMap => "tree-binary-structs-as-maps",
             Codec::Be => "be",
             Codec::Le => "le",
         }
